@@ -28,4 +28,18 @@ def run(rep, tier):
     else:
         rep.add(Result("C07.include-independent", BOUNDED_OK, klass="B", backend="native-model", function="mako.runtime:_include_file", bound=bound, evaluations=n,
                        time_s=time.time() - t0, detail="the included template's named blocks render at their position; the includer's parent/next are not visible to it"))
+    # import= names come ahead of context variables, with and without strict_undefined, at every read site
+    from vrf.bounded.scope_grid import cases as scope_cases, run_case as scope_run
+    from vrf.propkit import pool_map
+    t1 = time.time()
+    ic = [c for c in scope_cases() if "imported" in c[0]]
+    io = [o for o in pool_map(scope_run, ic) if o is not None and o[0] in ("bad", "error")]
+    b1 = "%d templates: an imported def's name also bound in the context / page args / body / module level, read at 13 kinds of site, strict_undefined on and off" % len(ic)
+    if io:
+        w = {"bindings": list(io[0][1][0]), "read_site": io[0][1][1], "strict_undefined": io[0][1][2], "template": io[0][2], "problem": io[0][3]}
+        rep.add(Result("C07.import-precedence", VIOLATED, klass="B", backend="native-oracle", function="mako.codegen:write_variable_declares / mako.runtime:Namespace._populate", bound=b1,
+                       evaluations=len(ic), detail=io[0][3], witness=w, replayed=True, replay={"failures": [w]}, time_s=time.time() - t1))
+    else:
+        rep.add(Result("C07.import-precedence", BOUNDED_OK, klass="B", backend="native-oracle", function="mako.codegen:write_variable_declares / mako.runtime:Namespace._populate", bound=b1,
+                       evaluations=len(ic), time_s=time.time() - t1, detail="the imported def wins over the context at every read site, whatever strict_undefined says"))
     link_bounded_witness(rep, only=lambda r: "_include_file" in r.oid)
